@@ -17,6 +17,9 @@ type Config struct {
 	Bools          map[string]bool   `json:"bools"`
 	ResolverFields map[string]bool   `json:"resolver_fields,omitempty"` // "Type.field" -> resolver: true
 	Extra          map[string]string `json:"extra,omitempty"`
+	// ExtraModels: raw YAML entries of the models section (two-space indented), e.g. a binding to a
+	// user-written Go type
+	ExtraModels string `json:"extra_models,omitempty"`
 }
 
 var BoolOptions = []string{
@@ -84,6 +87,9 @@ func (c Config) YAML() string {
 	for _, k := range keys {
 		fmt.Fprintf(&sb, "%s: %s\n", k, c.Extra[k])
 	}
+	if len(c.ResolverFields) == 0 && c.ExtraModels != "" {
+		sb.WriteString("models:\n" + c.ExtraModels)
+	}
 	if len(c.ResolverFields) > 0 {
 		byType := map[string][]string{}
 		for tf := range c.ResolverFields {
@@ -103,6 +109,7 @@ func (c Config) YAML() string {
 				fmt.Fprintf(&sb, "      %s:\n        resolver: true\n", f)
 			}
 		}
+		sb.WriteString(c.ExtraModels)
 	}
 	return sb.String()
 }
